@@ -155,6 +155,19 @@ pub fn check_watches(d: &VerifDump) -> Result<(), (String, String)> {
     Ok(())
 }
 
+/// Decision levels never decrease along the trail (an entry pushed with a lower level than the entries
+/// below it would survive a later `undo_until` of those entries).
+pub fn check_trail_levels(d: &VerifDump) -> Result<(), (String, String)> {
+    let mut last = 0u32;
+    for (k, (v, b, level)) in d.trail.iter().enumerate() {
+        if *level < last {
+            return Err(("trail:levels-decrease".into(), format!("trail entry {k} ({v:?} = {b}) has level {level} below the level {last} of the entry before it")));
+        }
+        last = *level;
+    }
+    Ok(())
+}
+
 /// Under the final trail of a successful solve no clause of the database may be falsified (every
 /// literal assigned and false), helper variables included, and no variable may be on the trail twice.
 pub fn check_fixpoint(d: &VerifDump) -> Result<(), (String, String)> {
@@ -164,6 +177,7 @@ pub fn check_fixpoint(d: &VerifDump) -> Result<(), (String, String)> {
             return Err(("trail:variable-twice".into(), format!("{v:?} is on the trail twice ({old} and {b})")));
         }
     }
+    check_trail_levels(d)?;
     for (i, c) in d.clauses.iter().enumerate() {
         let mut satisfied = false;
         let mut unassigned = 0;
@@ -232,6 +246,9 @@ pub fn check(prop: P, case: &Case, cfg: &RunCfg, order: (usize, u64, u32), acc: 
         if let Some(d) = &res.dump {
             acc.count("watch_structures_checked");
             if let Err((sig, what)) = check_watches(d) {
+                acc.violation(v(sig, what, res.outcome.short()));
+            }
+            if let Err((sig, what)) = check_trail_levels(d) {
                 acc.violation(v(sig, what, res.outcome.short()));
             }
             // (not with soft requirements: a directly named soft solvable is exempt from its package's lock
